@@ -117,17 +117,19 @@ def judge_call(world, srv, meth, args, out, emulated=False):
             if isinstance(a, int) and k != "n":
                 return Failure(PROP, "C08.value", "%s%r: number sent as a string in %r" % (meth, args, dec.raw), info)
     else:
-        order = [b"LISTSCRIPTS", b"GETSCRIPT", b"PUTSCRIPT", b"SETACTIVE", b"DELETESCRIPT"]
+        # any order and any number of the script-management commands an emulation may reasonably use; RENAMESCRIPT
+        # itself, authentication or logout do not belong to it
+        allowed = (b"LISTSCRIPTS", b"GETSCRIPT", b"PUTSCRIPT", b"SETACTIVE", b"DELETESCRIPT", b"HAVESPACE", b"CHECKSCRIPT",
+                   b"CAPABILITY", b"NOOP")
         verbs = [c.decoded.verb for c in cmds]
-        it = iter(order)
-        if not all(v in it for v in verbs):
-            return Failure(PROP, "C08.verb", "emulated rename%r sent %r, not a subsequence of %r" % (args, verbs, order), info)
+        if any(v not in allowed for v in verbs):
+            return Failure(PROP, "C08.verb", "emulated rename%r sent %r" % (args, verbs), info)
         old, new = (a.encode("utf-8") for a in args)
         for c in cmds:
             d = c.decoded
             if d.verb in (b"GETSCRIPT", b"DELETESCRIPT") and d.args != [old]:
                 return Failure(PROP, "C08.value", "emulated rename%r: %s decodes to %r" % (args, d.verb.decode(), d.args), info)
-            if d.verb in (b"SETACTIVE",) and d.args != [new]:
+            if d.verb in (b"SETACTIVE",) and d.args not in ([new], [old], [b""]):
                 return Failure(PROP, "C08.value", "emulated rename%r: SETACTIVE decodes to %r" % (args, d.args), info)
             if d.verb == b"PUTSCRIPT" and d.args[0] != new:
                 return Failure(PROP, "C08.value", "emulated rename%r: PUTSCRIPT decodes to %r" % (args, d.args), info)
@@ -273,8 +275,8 @@ def judge_connect(world, srv, o):
     if viol:
         return Failure(PROP, "C08.malformed", "connect wrote bytes the strict decoder rejects: %s %r" % (viol[0][2], viol[0][3]), {})
     verbs = [r.decoded.verb for r in srv.log if r.call_id == o.call_id and r.decoded is not None]
-    if any(v not in (b"STARTTLS", b"AUTHENTICATE") for v in verbs):
-        return Failure(PROP, "C08.verb", "connect put %r on the wire (only STARTTLS / AUTHENTICATE belong to it)" % (verbs,), {})
+    if any(v not in (b"STARTTLS", b"AUTHENTICATE", b"CAPABILITY", b"NOOP") for v in verbs):
+        return Failure(PROP, "C08.verb", "connect put %r on the wire (only STARTTLS / AUTHENTICATE / CAPABILITY / NOOP belong to a handshake)" % (verbs,), {})
     return None
 
 
